@@ -39,6 +39,40 @@ def referencing(v, qnames):
 
 
 # ------------------------------------------------------------------ balanced add / remove (C12.R4)
+def _balanced_groups(events, pname):
+    """several add statements followed by several remove statements (unrolled loops, remainders): the adds and the removes
+    must each visit every element of the same range exactly once, with the same loop-invariant operand"""
+    from sa import coverage
+    first_op = events[0][1]["op"]
+    if first_op not in ("+=", "-="):
+        return False, "a const operand is assigned through %s" % pname
+    k = 0
+    while k < len(events) and events[k][1]["op"] == first_op:
+        k += 1
+    adds, rems = events[:k], events[k:]
+    other = "-=" if first_op == "+=" else "+="
+    if not rems or any(ev[1]["op"] != other for ev in rems):
+        return False, "the writes through %s are not a block of '%s' followed by a block of '%s'" % (pname, first_op, other)
+    vals = {ev[1]["val"] for ev in events}
+    arrs = {ev[1]["lv"][1] if ev[1]["lv"][0] == "idx" else None for ev in events}
+    if len(vals) != 1 or len(arrs) != 1 or None in arrs:
+        return False, "the add and remove statements use different operands or arrays (%s)" % [sym.show(x)[:30] for x in vals]
+    X = next(iter(vals))
+    bounds_ = []
+    for ev in events:
+        if len(ev[2]) != 1 or "var" not in ev[2][0] or sym.contains(X, ev[2][0]["var"]):
+            return False, "writes are not inside single counted loops with a loop-invariant operand"
+        bounds_.append(ev[2][0]["hi"] if sym.const_value(ev[2][0]["step"]) != -1 else sym.add(ev[2][0]["lo"], I(1)))
+    for n in bounds_:
+        res = []
+        for grp in (adds, rems):
+            res.append(coverage.cover_1d([(ev[2][0], ev[1]["lv"][2], 1) for ev in grp], n))
+        if all(r[0] == "proved" for r in res):
+            return True, "%d '%s' statement(s) and %d '%s' statement(s) of %s, each covering [0, %s) exactly once" % (
+                len(adds), first_op, len(rems), other, sym.show(X)[:40], sym.show(n))
+    return False, "the add statements and the remove statements do not cover the same range exactly once: %s / %s" % (res[0][1], res[1][1])
+
+
 def balanced_const_writes(v, f, pidx):
     """Are all writes of f through its const parameter pidx an add of X over a range followed by a
     subtract of the same X over the same range with no exit in between?  -> (ok, detail)"""
@@ -69,6 +103,8 @@ def balanced_const_writes(v, f, pidx):
                 scan(x["then"], loops)
                 scan(x["else"], loops)
     scan(eff, [])
+    if len(events) > 2 and all(ev[0] == "store" for ev in events):
+        return _balanced_groups(events, pname)
     if len(events) != 2:
         return False, "%d write events through %s (expected an add/remove pair)" % (len(events), pname)
     a, b = events
@@ -77,7 +113,11 @@ def balanced_const_writes(v, f, pidx):
         la, lb = a[2], b[2]
         if len(la) != 1 or len(lb) != 1:
             return False, "writes are not inside single loops"
-        same_range = (la[0]["lo"], la[0]["cmp"], la[0]["hi"], la[0]["step"]) == (lb[0]["lo"], lb[0]["cmp"], lb[0]["hi"], lb[0]["step"])
+        from sa import pam
+        if "var" not in la[0] or "var" not in lb[0]:
+            return False, "writes are not inside counted loops"
+        ra, rb = pam.ascending_range(la[0]), pam.ascending_range(lb[0])
+        same_range = ra is not None and ra == rb          # unit-stride loops over the same values, in either direction
         ren = {lb[0]["var"]: la[0]["var"]}
         same_cell = xa["lv"] == sym.subst(xb["lv"], ren)
         same_val = xa["val"] == sym.subst(xb["val"], ren) and not sym.contains(xa["val"], la[0]["var"])
